@@ -24,13 +24,22 @@ package main
 //              << >> by a constant or unsigned count; == != < <= > >= (signed on toInt); && || ! with short-circuit
 //              (guards of the right operand are conjoined with the left operand's value); conversions between the integer
 //              types (zero-extension / truncation / reinterpretation); bytes.Compare; big.NewInt, new(big.Int),
-//              Cmp, Sign, Uint64, IsUint64, Add, Sub, Mul, Quo, Div, Exp(x,y,nil), Set, SetUint64, SetInt64 — mutating
+//              Cmp, Sign, Uint64, IsUint64, BitLen, Add, Sub, Mul, Quo, Div, Exp(x,y,nil), Set, SetUint64, SetInt64 — mutating
 //              methods only on a fresh value or on a local that owns a fresh value (no aliasing: `x := y` of pointers,
 //              mutation of parameters / package variables are refused); x.Bytes() / x[:] of a byte array = the bytes;
 //              calls of other translated whole functions that cannot panic
 //   statements := = op= ++ -- on locals / flattened fields (let-rebinding; shadowing refused), var, if / else if / else
 //              with init, return (tuples), blocks, panic(...), binary.LittleEndian.PutUint64(a[:], v) on a local [8]byte.
-//              No loops, switch, goto, defer, closures, break / continue.
+//              Counting loops `for i := a; i < b; i++` / `i <= C` / `for i := a; i > b; i--` / `i >= C` (64-bit counter the body does
+//              not assign, loop-invariant bound, unit step) and `for i[, v] := range xs` over a byte slice / table ↦ a fold
+//              (`Go.forIn`) over the counter's values carrying the locals the body assigns; `continue`, `break`, `return`
+//              inside; nested loops refused. Expression / tagless `switch` without init, fallthrough, break ↦ if-chain.
+//              No goto, defer, closures, labels.
+//   slices     `[]byte` parameters ↦ List Nat; `x[i]` on byte slices / arrays and on package-level tables (`[]int64`,
+//              `[]uint64`, `[]int` composite literals whose elements are in the subset, read at their INITIAL value) with Go's
+//              bounds panic explicit (`Go.oobS` / `Go.oobU`); `len(x)`; a byte element is only compared or widened
+//   helpers    a call of a repository function whose name starts with min / max and that is not in the curated list is
+//              translated on demand (`<pkg>_<Name>`) and refused with the helper's reason when it is outside the subset
 // Results: a function without panic sites ↦ its value; otherwise Go.Res (ok / panic). A FRAGMENT (consecutive statements
 // cut out of a larger function, inputs named by the spec) ↦ Go.Res of its output variables; a `return` inside ↦ exit k.
 
@@ -68,7 +77,30 @@ const (
 	tUInt   // untyped integer constant
 	tUFloat // untyped float constant
 	tNil
+	tByte  // element of a byte slice / byte array: a Nat < 256, comparisons and widening conversions only
+	tSlI64 // []int64 table
+	tSlU64 // []uint64 table
+	tSlInt // []int table
+	tSlProj  // slice of (pointers to) a repository struct, PROJECTED to the one 64-bit field the function reads of its elements
+	tProjElem // element of such a slice: can be moved (append) and have that field selected, nothing else
 )
+
+func (t gty) isTab() bool { return t == tSlI64 || t == tSlU64 || t == tSlInt || t == tSlProj }
+func (t gty) elem() gty {
+	switch t {
+	case tSlI64:
+		return tI64
+	case tSlU64:
+		return tU64
+	case tSlInt:
+		return tInt
+	case tBytes:
+		return tByte
+	case tSlProj:
+		return tProjElem
+	}
+	return tBad
+}
 
 func (t gty) lean() string {
 	switch t {
@@ -86,6 +118,12 @@ func (t gty) lean() string {
 		return "List Nat"
 	case tErr:
 		return "Option String"
+	case tByte:
+		return "Nat"
+	case tSlI64, tSlU64, tSlInt, tSlProj:
+		return "List (BitVec 64)"
+	case tProjElem:
+		return "BitVec 64"
 	}
 	return "UNSUPPORTED"
 }
@@ -154,6 +192,7 @@ type translator struct {
 	order []string
 	specs map[string]*trSpec // by "dir.func" for whole functions
 	sigs  map[string]*trSig  // translated whole functions, by Lean name
+	helpers []string         // definitions of min / max helpers translated on demand
 }
 
 type trSig struct {
@@ -226,6 +265,9 @@ func (t *translator) pkg(dir string) *trPkg {
 		ast.Inspect(f, func(n ast.Node) bool {
 			if as, ok := n.(*ast.AssignStmt); ok && as.Tok != token.DEFINE {
 				for _, l := range as.Lhs {
+					if ix, ok := l.(*ast.IndexExpr); ok {
+						l = ix.X // element assignment `T[i] = v`
+					}
 					if id, ok := l.(*ast.Ident); ok {
 						p.assigned[id.Name] = true
 					}
@@ -304,7 +346,15 @@ type trFn struct {
 	exits    map[token.Pos]int
 	nilable  map[string]bool
 	size     int
+	projField string // the one field selected on elements of struct slices (`xs[i].F`), "" = none
+	projTy    gty
+	appendTarget string // the variable being assigned: `x = append(x, …)` / `x = x[:0]` are allowed only back onto x
+	loop     *trLoop // the loop whose body is being translated (nil outside loops; nested loops are refused)
+	sawLoop  bool
 }
+
+// trLoop: the loop-carried variables (locals / inputs assigned in the body), in a fixed order
+type trLoop struct{ keys []string }
 
 var leanKeywords = map[string]bool{"end": true, "from": true, "at": true, "have": true, "show": true, "by": true, "fun": true,
 	"let": true, "in": true, "do": true, "then": true, "else": true, "if": true, "match": true, "with": true, "open": true,
@@ -359,8 +409,28 @@ func (f *trFn) typeOf(file *ast.File, e ast.Expr) gty {
 			}
 		}
 	case *ast.ArrayType:
-		if id, ok := e.Elt.(*ast.Ident); ok && id.Name == "byte" && e.Len != nil {
-			return tBytes
+		if id, ok := e.Elt.(*ast.Ident); ok && (id.Name == "byte" || id.Name == "uint8") {
+			return tBytes // [N]byte and []byte: the bytes
+		}
+		if e.Len == nil && f != nil && f.projField != "" {
+			if fty, _, _ := f.structField(file, e.Elt, f.projField); fty == tU64 || fty == tI64 || fty == tInt {
+				if f.projTy == tBad {
+					f.projTy = fty
+				}
+				if f.projTy == fty {
+					return tSlProj
+				}
+			}
+		}
+		if id, ok := e.Elt.(*ast.Ident); ok && e.Len == nil {
+			switch id.Name {
+			case "int64":
+				return tSlI64
+			case "uint64":
+				return tSlU64
+			case "int":
+				return tSlInt
+			}
 		}
 	}
 	return tBad
@@ -442,6 +512,11 @@ func (f *trFn) lit(cv constant.Value, ty gty) string {
 	}
 	two := func(k uint) *big.Int { return new(big.Int).Lsh(big.NewInt(1), k) }
 	switch {
+	case ty == tByte:
+		if b.Sign() < 0 || b.Cmp(big.NewInt(256)) >= 0 {
+			refuse("constant %s overflows byte", b)
+		}
+		return fmt.Sprintf("(%s : Nat)", b.String())
 	case ty == tBig:
 		return fmt.Sprintf("(%s : Int)", b.String())
 	case ty == tU64 || ty == tU32:
@@ -470,7 +545,7 @@ func (f *trFn) typed(v tval, ty gty) tval {
 		}
 		return v
 	}
-	if v.cv != nil && (v.ty == tUInt || v.ty == tUFloat) && (ty.isInt()) {
+	if v.cv != nil && (v.ty == tUInt || v.ty == tUFloat) && (ty.isInt() || ty == tByte) {
 		return tval{lean: f.lit(v.cv, ty), ty: ty, cv: v.cv}
 	}
 	if v.ty == tNil && ty == tErr {
@@ -494,9 +569,29 @@ func (f *trFn) flush() string {
 	if len(f.pending) == 0 {
 		return ""
 	}
-	s := "if (" + strings.Join(f.pending, " || ") + ") then Go.Res.panic else\n"
+	s := "if (" + strings.Join(f.pending, " || ") + ") then " + f.leave("Go.Res.panic") + " else\n"
 	f.pending = nil
 	return s
+}
+
+// leave wraps an outcome that leaves the function (return / panic / exit) when it occurs inside a loop body
+func (f *trFn) leave(res string) string {
+	if f.loop != nil {
+		return "Go.Step.done (" + res + ")"
+	}
+	return res
+}
+
+// loopState: the tuple of the loop-carried variables as they are named now
+func (f *trFn) loopState(st *trState) string {
+	if len(f.loop.keys) == 0 {
+		return "()"
+	}
+	ns := []string{}
+	for _, k := range f.loop.keys {
+		ns = append(ns, st.lname[k])
+	}
+	return tuple(ns)
 }
 
 func (f *trFn) constDecl(p *trPkg, name string, qual string) (tval, bool) {
@@ -567,7 +662,7 @@ func (f *trFn) useBig(st *trState, v tval) tval {
 	return v
 }
 
-var bigPure = map[string]bool{"Cmp": true, "Sign": true, "Uint64": true, "IsUint64": true}
+var bigPure = map[string]bool{"Cmp": true, "Sign": true, "Uint64": true, "IsUint64": true, "BitLen": true}
 var bigMut = map[string]int{"Add": 2, "Sub": 2, "Mul": 2, "Quo": 2, "Div": 2, "Exp": 3, "Set": 1, "SetUint64": 1, "SetInt64": 1}
 
 // bigMethod translates recv.M(args) given the receiver's value; returns the value of the call
@@ -647,6 +742,13 @@ func (f *trFn) expr(st *trState, e ast.Expr) tval {
 		}
 		refuse("identifier %s is not a local of the subset, an input, or a package-level constant", e.Name)
 	case *ast.SelectorExpr:
+		if ix, ok := e.X.(*ast.IndexExpr); ok {
+			v := f.expr(st, ix)
+			if v.ty == tProjElem && e.Sel.Name == f.projField {
+				return tval{lean: v.lean, ty: f.projTy} // the projection IS the field
+			}
+			refuse("selector %s", f.t.src(e))
+		}
 		if q, ok := e.X.(*ast.Ident); ok {
 			if _, isLocal := st.vars[q.Name]; !isLocal {
 				if path := f.t.importPath(f.file, q.Name); strings.HasPrefix(path, trModulePath) {
@@ -663,6 +765,11 @@ func (f *trFn) expr(st *trState, e ast.Expr) tval {
 				return v
 			}
 		}
+		if e.Low == nil && e.Max == nil && e.High != nil && f.t.src(e.High) == "0" {
+			if v := f.expr(st, e.X); v.ty == tSlProj && f.appendTarget != "" && f.appendTarget == f.t.src(e.X) {
+				return tval{lean: "[]", ty: tSlProj, frsh: true} // x = x[:0]: the empty slice, still the only owner of its array
+			}
+		}
 		refuse("slice expression %s", f.t.src(e))
 	case *ast.CompositeLit:
 		if f.typeOf(f.file, e.Type) == tBytes && len(e.Elts) == 0 {
@@ -672,7 +779,47 @@ func (f *trFn) expr(st *trState, e ast.Expr) tval {
 				}
 			}
 		}
+		if ty := f.typeOf(f.file, e.Type); ty.isTab() {
+			elts := []string{}
+			for _, el := range e.Elts {
+				if _, kv := el.(*ast.KeyValueExpr); kv {
+					refuse("keyed element in the table %s", f.t.src(e.Type))
+				}
+				// a constant, or an expression over package variables read at their initial value (a panic site in
+				// it is refused by the caller: `initialiser can panic`)
+				elts = append(elts, f.typed(f.expr(st, el), ty.elem()).lean)
+			}
+			return tval{lean: "[" + strings.Join(elts, ", ") + "]", ty: ty}
+		}
 		refuse("composite literal %s", f.t.src(e))
+	case *ast.IndexExpr:
+		// x[i] with Go's bounds check explicit: out of range = run-time panic
+		x := f.expr(st, e.X)
+		if x.ty != tBytes && !x.ty.isTab() {
+			refuse("indexing of %s", f.t.src(e.X))
+		}
+		i := f.expr(st, e.Index)
+		if i.cv != nil && (i.ty == tUInt || i.ty == tUFloat) {
+			i = f.typed(i, tInt)
+		} else if i.cv != nil && i.lean == "" {
+			i = f.typed(i, i.ty)
+		}
+		if !i.ty.isInt() {
+			refuse("index %s of type %s", f.t.src(e.Index), i.ty.lean())
+		}
+		il, oob := i.lean, "Go.oobS"
+		if !i.ty.isSigned() {
+			oob = "Go.oobU"
+		}
+		if i.ty == tU32 {
+			il = "(BitVec.setWidth 64 " + il + ")"
+		}
+		f.panicSite("(" + oob + " " + x.lean + " " + il + ")")
+		at := "Go.atW"
+		if x.ty == tBytes {
+			at = "Go.atB"
+		}
+		return tval{lean: "(" + at + " " + x.lean + " " + il + ")", ty: x.ty.elem()}
 	case *ast.UnaryExpr:
 		v := f.expr(st, e.X)
 		switch e.Op {
@@ -802,7 +949,7 @@ func (f *trFn) binary(st *trState, e *ast.BinaryExpr) tval {
 	if untyped(a) {
 		ty = b.ty
 	}
-	if !(ty.isInt() || ((ty == tBool || ty == tBytes || ty == tErr) && (e.Op == token.EQL || e.Op == token.NEQ))) {
+	if !(ty.isInt() || (ty == tByte && isCmp) || ((ty == tBool || ty == tBytes || ty == tErr) && (e.Op == token.EQL || e.Op == token.NEQ))) {
 		refuse("operator %s on %s", e.Op, ty.lean())
 	}
 	a, b = f.typed(a, ty), f.typed(b, ty)
@@ -862,6 +1009,9 @@ func (f *trFn) convert(v tval, to gty) tval {
 		}
 		return tval{lean: f.lit(v.cv, to), ty: to, cv: constant.ToInt(v.cv)}
 	}
+	if v.ty == tByte && v.cv == nil {
+		return tval{lean: fmt.Sprintf("(BitVec.ofNat %d %s)", to.width(), v.lean), ty: to} // widening: the byte is < 256
+	}
 	if !v.ty.isInt() {
 		refuse("conversion of %s to %s", v.ty.lean(), to.lean())
 	}
@@ -891,6 +1041,47 @@ func (f *trFn) call(st *trState, e *ast.CallExpr) tval {
 			}
 		}
 	}
+	if _, shadow := st.vars["len"]; fun == "len" && len(e.Args) == 1 && !shadow {
+		if _, own := f.pkg.funcs["len"]; !own {
+			v := f.expr(st, e.Args[0])
+			if v.ty != tBytes && !v.ty.isTab() {
+				refuse("len of %s", f.t.src(e.Args[0]))
+			}
+			return tval{lean: "(Go.len " + v.lean + ")", ty: tInt}
+		}
+	}
+	if fun == "make" && len(e.Args) >= 2 && f.typeOf(f.file, e.Args[0]) == tSlProj && f.t.src(e.Args[1]) == "0" {
+		for _, a := range e.Args[2:] { // the capacity: a non-negative constant or a len(...)
+			c := f.expr(st, a)
+			if c.cv != nil {
+				if constant.Sign(constant.ToInt(c.cv)) < 0 {
+					refuse("make with a negative constant capacity")
+				}
+			} else if c.ty.isSigned() {
+				f.panicSite("(decide (BitVec.toInt " + c.lean + " < 0))") // make panics on a negative capacity
+			} else if !c.ty.isInt() {
+				refuse("make with capacity %s", f.t.src(a))
+			}
+		}
+		return tval{lean: "[]", ty: tSlProj, frsh: true}
+	}
+	if fun == "append" && len(e.Args) == 2 {
+		x := f.expr(st, e.Args[0])
+		if x.ty != tSlProj {
+			refuse("append to %s", f.t.src(e.Args[0]))
+		}
+		if f.appendTarget == "" || f.appendTarget != f.t.src(e.Args[0]) {
+			refuse("%s: the result of append must be assigned back to its first argument (no aliasing)", f.t.src(e))
+		}
+		y := f.expr(st, e.Args[1])
+		switch {
+		case e.Ellipsis.IsValid() && y.ty == tSlProj:
+			return tval{lean: "(" + x.lean + " ++ " + y.lean + ")", ty: tSlProj, frsh: true}
+		case !e.Ellipsis.IsValid() && y.ty == tProjElem:
+			return tval{lean: "(" + x.lean + " ++ [" + y.lean + "])", ty: tSlProj, frsh: true}
+		}
+		refuse("append %s", f.t.src(e))
+	}
 	switch {
 	case fun == "new" && len(e.Args) == 1 && f.typeOf(f.file, &ast.StarExpr{X: e.Args[0]}) == tBig:
 		return tval{lean: "(0 : Int)", ty: tBig, frsh: true}
@@ -913,6 +1104,29 @@ func (f *trFn) call(st *trState, e *ast.CallExpr) tval {
 		callee = f.t.specs[f.pkg.dir+"."+id.Name]
 	} else if strings.HasPrefix(qualPath, trModulePath) {
 		callee = f.t.specs[strings.TrimPrefix(qualPath, trModulePath)+"."+sel.Sel.Name]
+	}
+	if callee == nil {
+		// min / max helpers of the repository, recognised by name, are translated on demand (refused with the
+		// helper's own reason when they are outside the subset)
+		var hp *trPkg
+		hn := ""
+		if id, ok := e.Fun.(*ast.Ident); ok {
+			hp, hn = f.pkg, id.Name
+		} else if strings.HasPrefix(qualPath, trModulePath) {
+			hp, hn = f.t.pkg(strings.TrimPrefix(qualPath, trModulePath)), sel.Sel.Name
+		}
+		low := strings.ToLower(hn)
+		if hp != nil && (strings.HasPrefix(low, "min") || strings.HasPrefix(low, "max")) {
+			if fd, ok := hp.funcs[hn]; ok && fd.decl.Recv == nil {
+				sp := &trSpec{name: leanName(strings.ReplaceAll(hp.dir, "/", "_") + "_" + hn),
+					file: filepath.Join(hp.dir, filepath.Base(f.t.fset.File(fd.file.Pos()).Name())), fn: hn}
+				d, sig := f.t.translate(sp)
+				f.t.sigs[sp.name] = sig
+				f.t.helpers = append(f.t.helpers, d)
+				f.t.specs[hp.dir+"."+hn] = sp
+				callee = sp
+			}
+		}
 	}
 	if callee != nil {
 		sig := f.t.sigs[callee.name]
@@ -959,6 +1173,8 @@ func (f *trFn) call(st *trState, e *ast.CallExpr) tval {
 				return tval{lean: "(Go.bigUint64 " + r.lean + ")", ty: tU64}
 			case "IsUint64":
 				return tval{lean: "(Go.bigIsUint64 " + r.lean + ")", ty: tBool}
+			case "BitLen":
+				return tval{lean: "(Go.bigBitLen " + r.lean + ")", ty: tInt}
 			}
 		}
 	}
@@ -978,8 +1194,8 @@ func tuple(vs []string) string {
 }
 
 func (f *trFn) ret(vals []string) string {
-	if f.wrap {
-		return "Go.Res.ok " + tuple(vals) + "\n"
+	if f.wrap || f.loop != nil {
+		return f.leave("Go.Res.ok "+tuple(vals)) + "\n"
 	}
 	return tuple(vals) + "\n"
 }
@@ -1012,6 +1228,9 @@ func (f *trFn) bind(st *trState, key string, v tval, declare bool) string {
 	} else {
 		v = f.typed(v, st.vars[key])
 	}
+	if st.vars[key] == tSlProj && !v.frsh {
+		refuse("%s: copy of a slice (aliasing of the underlying array)", key)
+	}
 	if st.vars[key] == tBig {
 		if !v.frsh && declare {
 			refuse("%s: pointer copy of a *big.Int (aliasing)", key)
@@ -1036,7 +1255,7 @@ func (f *trFn) stmts(st *trState, list []ast.Stmt, k trK) string {
 	case *ast.ReturnStmt:
 		if f.frag && !f.spec.tail {
 			f.sawExit = true
-			return fmt.Sprintf("Go.Res.exit %d\n", f.exits[s.Pos()])
+			return f.leave(fmt.Sprintf("Go.Res.exit %d", f.exits[s.Pos()])) + "\n"
 		}
 		if len(s.Results) != len(f.results) {
 			refuse("return with %d values in a function of %d results", len(s.Results), len(f.results))
@@ -1118,7 +1337,11 @@ func (f *trFn) stmts(st *trState, list []ast.Stmt, k trK) string {
 					return f.flush() + f.bind(st, f.target(st, s.Lhs[0]), v, false) + next(st)
 				}
 			}
+			if s.Tok == token.ASSIGN {
+				f.appendTarget = f.t.src(s.Lhs[0])
+			}
 			v := f.expr(st, s.Rhs[0])
+			f.appendTarget = ""
 			key := f.t.src(s.Lhs[0])
 			if s.Tok == token.ASSIGN {
 				key = f.target(st, s.Lhs[0])
@@ -1153,7 +1376,7 @@ func (f *trFn) stmts(st *trState, list []ast.Stmt, k trK) string {
 		}
 		if id, ok := ce.Fun.(*ast.Ident); ok && id.Name == "panic" {
 			f.sawPanic = true
-			return "Go.Res.panic\n"
+			return f.leave("Go.Res.panic") + "\n"
 		}
 		if f.t.src(ce.Fun) == "binary.LittleEndian.PutUint64" && len(ce.Args) == 2 && f.t.importPath(f.file, "binary") == "encoding/binary" {
 			sl, ok := ce.Args[0].(*ast.SliceExpr)
@@ -1173,6 +1396,26 @@ func (f *trFn) stmts(st *trState, list []ast.Stmt, k trK) string {
 			}
 		}
 		refuse("statement %s", f.t.src(s))
+	case *ast.BranchStmt:
+		if s.Label != nil {
+			refuse("labelled %s", s.Tok)
+		}
+		if f.loop == nil {
+			refuse("%s outside a translated loop", s.Tok)
+		}
+		switch s.Tok {
+		case token.CONTINUE:
+			return "Go.Step.next " + f.loopState(st) + "\n"
+		case token.BREAK:
+			return "Go.Step.brk " + f.loopState(st) + "\n"
+		}
+		refuse("statement %s", s.Tok)
+	case *ast.SwitchStmt:
+		return f.stmts(st, append([]ast.Stmt{f.desugarSwitch(s)}, rest...), k)
+	case *ast.ForStmt:
+		return f.forLoop(st, s, next)
+	case *ast.RangeStmt:
+		return f.rangeLoop(st, s, next)
 	case *ast.IfStmt:
 		inner := st.clone()
 		out := ""
@@ -1212,6 +1455,255 @@ func (f *trFn) stmts(st *trState, list []ast.Stmt, k trK) string {
 	}
 	refuse("statement %s", f.t.src(s))
 	return ""
+}
+
+// desugarSwitch: an expression switch on integers / constants (or a tagless switch) as the equivalent if-chain.
+// Go tries the cases top to bottom and runs `default` only when none matches, wherever it is written.
+func (f *trFn) desugarSwitch(s *ast.SwitchStmt) ast.Stmt {
+	if s.Init != nil {
+		refuse("switch with an initialiser")
+	}
+	var deflt *ast.CaseClause
+	var clauses []*ast.CaseClause
+	for _, c := range s.Body.List {
+		cc := c.(*ast.CaseClause)
+		for _, b := range cc.Body {
+			ast.Inspect(b, func(n ast.Node) bool {
+				switch n := n.(type) {
+				case *ast.ForStmt, *ast.RangeStmt, *ast.FuncLit:
+					return false
+				case *ast.BranchStmt:
+					if n.Tok == token.FALLTHROUGH || n.Tok == token.BREAK || n.Tok == token.GOTO {
+						refuse("%s inside a switch", n.Tok)
+					}
+				}
+				return true
+			})
+		}
+		if cc.List == nil {
+			deflt = cc
+		} else {
+			clauses = append(clauses, cc)
+		}
+	}
+	var els ast.Stmt
+	if deflt != nil {
+		els = &ast.BlockStmt{List: deflt.Body}
+	}
+	for i := len(clauses) - 1; i >= 0; i-- {
+		var cond ast.Expr
+		for _, e := range clauses[i].List {
+			c := e
+			if s.Tag != nil {
+				c = &ast.BinaryExpr{X: &ast.ParenExpr{X: s.Tag}, Op: token.EQL, Y: e}
+			}
+			if cond == nil {
+				cond = c
+			} else {
+				cond = &ast.BinaryExpr{X: cond, Op: token.LOR, Y: c}
+			}
+		}
+		els = &ast.IfStmt{Cond: cond, Body: &ast.BlockStmt{List: clauses[i].Body}, Else: els}
+	}
+	if els == nil {
+		return &ast.EmptyStmt{}
+	}
+	return els
+}
+
+// assignedIn: printed targets of every assignment / ++ / -- / mutating call statement below n
+func (f *trFn) assignedIn(n ast.Node) map[string]bool {
+	out := map[string]bool{}
+	ast.Inspect(n, func(nd ast.Node) bool {
+		switch s := nd.(type) {
+		case *ast.FuncLit:
+			refuse("closure")
+		case *ast.AssignStmt:
+			for _, l := range s.Lhs {
+				if ix, ok := l.(*ast.IndexExpr); ok {
+					l = ix.X
+				}
+				out[f.t.src(l)] = true
+			}
+		case *ast.IncDecStmt:
+			out[f.t.src(s.X)] = true
+		case *ast.RangeStmt:
+			if s.Key != nil {
+				out[f.t.src(s.Key)] = true
+			}
+			if s.Value != nil {
+				out[f.t.src(s.Value)] = true
+			}
+		case *ast.ExprStmt:
+			if ce, ok := s.X.(*ast.CallExpr); ok {
+				if sel, ok := ce.Fun.(*ast.SelectorExpr); ok {
+					out[f.t.src(sel.X)] = true
+				}
+				for _, a := range ce.Args {
+					if sl, ok := a.(*ast.SliceExpr); ok {
+						out[f.t.src(sl.X)] = true
+					}
+				}
+			}
+		}
+		return true
+	})
+	return out
+}
+
+// invariant refuses an expression that mentions something the loop body assigns
+func (f *trFn) invariant(e ast.Expr, assigned map[string]bool, what string) {
+	ast.Inspect(e, func(n ast.Node) bool {
+		switch n.(type) {
+		case *ast.Ident, *ast.SelectorExpr:
+			if assigned[f.t.src(n)] {
+				refuse("%s %s is not loop-invariant: the body assigns %s", what, f.t.src(e), f.t.src(n))
+			}
+		}
+		return true
+	})
+}
+
+// emitLoop: the fold. `idx` = the Lean list of the counter's values, `prelude` = bindings at the start of every iteration
+func (f *trFn) emitLoop(st *trState, counter string, cty gty, idx string, prelude func(*trState) string, body *ast.BlockStmt,
+	assigned map[string]bool, next trK) string {
+	if f.loop != nil {
+		refuse("nested loop")
+	}
+	if _, exists := st.vars[counter]; exists {
+		refuse("redeclaration / shadowing of %s", counter)
+	}
+	keys := []string{}
+	for k := range assigned {
+		if ty, ok := st.vars[k]; ok {
+			if ty == tBig || ty == tBigOpt {
+				refuse("loop-carried *big.Int %s (ownership across iterations is not tracked)", k)
+			}
+			keys = append(keys, k)
+		}
+	}
+	sort.Strings(keys)
+	f.sawLoop, f.sawPanic = true, true // a loop is always wrapped in Go.Res
+	pre := f.flush()
+	f.loop = &trLoop{keys}
+	s0 := f.loopState(st)
+	pat := ""
+	if len(keys) > 0 {
+		pat = "let " + s0 + " := s__;\n"
+	}
+	inner := st.clone()
+	inner.vars[counter], inner.lname[counter] = cty, leanName(counter)
+	bodyS := prelude(inner) + f.block(inner, body.List, func(b *trState) string { return "Go.Step.next " + f.loopState(b) + "\n" })
+	f.loop = nil
+	rest := next(st.clone())
+	return pre + "Go.loopThen (Go.forIn " + idx + " " + s0 + " (fun " + leanName(counter) + " s__ => (\n" + pat + bodyS +
+		"))) (fun s__ => (\n" + pat + rest + "))\n"
+}
+
+// forLoop: `for i := a; i < b; i++` / `i <= C` / `for i := a; i > b; i--` / `i >= C` with a 64-bit counter the body does not
+// assign and a loop-invariant bound, as a fold over the counter's values
+func (f *trFn) forLoop(st *trState, s *ast.ForStmt, next trK) string {
+	as, ok := s.Init.(*ast.AssignStmt)
+	if !ok || as.Tok != token.DEFINE || len(as.Lhs) != 1 || len(as.Rhs) != 1 {
+		refuse("loop without a counter declared in its initialiser: %s", f.t.src(s.Init))
+	}
+	cid, ok := as.Lhs[0].(*ast.Ident)
+	if !ok {
+		refuse("loop counter %s", f.t.src(as.Lhs[0]))
+	}
+	be, ok := s.Cond.(*ast.BinaryExpr)
+	if !ok || f.t.src(be.X) != cid.Name {
+		refuse("loop condition %s is not a comparison of the counter with a bound", f.t.src(s.Cond))
+	}
+	up := false
+	switch p := s.Post.(type) {
+	case *ast.IncDecStmt:
+		if f.t.src(p.X) != cid.Name {
+			refuse("loop post statement %s", f.t.src(p))
+		}
+		up = p.Tok == token.INC
+	case *ast.AssignStmt:
+		if len(p.Lhs) != 1 || f.t.src(p.Lhs[0]) != cid.Name || f.t.src(p.Rhs[0]) != "1" || (p.Tok != token.ADD_ASSIGN && p.Tok != token.SUB_ASSIGN) {
+			refuse("loop post statement %s", f.t.src(p))
+		}
+		up = p.Tok == token.ADD_ASSIGN
+	default:
+		refuse("loop without a unit step")
+	}
+	if up != (be.Op == token.LSS || be.Op == token.LEQ) || !(be.Op == token.LSS || be.Op == token.LEQ || be.Op == token.GTR || be.Op == token.GEQ) {
+		refuse("loop condition %s does not bound a counter stepping %v", f.t.src(s.Cond), map[bool]string{true: "up", false: "down"}[up])
+	}
+	assigned := f.assignedIn(s.Body)
+	if assigned[cid.Name] {
+		refuse("the loop body assigns its counter %s", cid.Name)
+	}
+	f.invariant(be.Y, assigned, "loop bound")
+	a := f.expr(st, as.Rhs[0])
+	if a.cv != nil && (a.ty == tUInt || a.ty == tUFloat) {
+		a = f.typed(a, tInt)
+	}
+	a = f.typed(a, a.ty)
+	if !a.ty.isInt() || a.ty.width() != 64 {
+		refuse("loop counter of type %s", a.ty.lean())
+	}
+	b := f.expr(st, be.Y)
+	if be.Op == token.LEQ || be.Op == token.GEQ {
+		// i <= C ≡ i < C+1, i >= C ≡ i > C-1 — only for a constant C, so that C±1 is checked not to overflow
+		if b.cv == nil {
+			refuse("loop condition %s with a non-constant inclusive bound", f.t.src(s.Cond))
+		}
+		d := token.ADD
+		if be.Op == token.GEQ {
+			d = token.SUB
+		}
+		b = tval{ty: tUInt, cv: constant.BinaryOp(constant.ToInt(b.cv), d, constant.MakeInt64(1))}
+	}
+	b = f.typed(b, a.ty)
+	var idx string
+	switch {
+	case up && a.ty.isSigned():
+		idx = "(Go.upS " + a.lean + " " + b.lean + ")"
+	case up:
+		idx = "(Go.upU " + a.lean + " " + b.lean + ")"
+	case a.ty.isSigned():
+		idx = "(Go.downS " + a.lean + " " + b.lean + ")"
+	default:
+		refuse("downward loop over an unsigned counter")
+	}
+	return f.emitLoop(st, cid.Name, a.ty, idx, func(*trState) string { return "" }, s.Body, assigned, next)
+}
+
+// rangeLoop: `for i := range xs` / `for i, v := range xs` / `for _, v := range xs` over a byte slice or a table
+func (f *trFn) rangeLoop(st *trState, s *ast.RangeStmt, next trK) string {
+	if s.Tok != token.DEFINE {
+		refuse("range loop assigning existing variables")
+	}
+	assigned := f.assignedIn(s.Body)
+	f.invariant(s.X, assigned, "ranged expression")
+	xs := f.expr(st, s.X)
+	if xs.ty != tBytes && !xs.ty.isTab() {
+		refuse("range over %s", f.t.src(s.X))
+	}
+	counter := "i__"
+	if id, ok := s.Key.(*ast.Ident); ok && id.Name != "_" {
+		counter = id.Name
+		if assigned[counter] {
+			refuse("the loop body assigns its counter %s", counter)
+		}
+	}
+	prelude := func(inner *trState) string { return "" }
+	if id, ok := s.Value.(*ast.Ident); ok && id.Name != "_" {
+		at := "Go.atW"
+		if xs.ty == tBytes {
+			at = "Go.atB"
+		}
+		prelude = func(inner *trState) string {
+			return f.bind(inner, id.Name, tval{lean: "(" + at + " " + xs.lean + " " + leanName(counter) + ")", ty: xs.ty.elem()}, true)
+		}
+	} else if s.Value != nil && f.t.src(s.Value) != "_" {
+		refuse("range value %s", f.t.src(s.Value))
+	}
+	return f.emitLoop(st, counter, tInt, "(Go.upS 0#64 (Go.len "+xs.lean+"))", prelude, s.Body, assigned, next)
 }
 
 // block translates a nested block: names it declares are dropped before the continuation runs
@@ -1328,6 +1820,21 @@ func (t *translator) translate(sp *trSpec) (def string, sig *trSig) {
 		}
 		assumed := []string{}
 		if !f.frag {
+			// struct slices are projected to the ONE field the body selects on their elements (`xs[i].F`)
+			pf := map[string]bool{}
+			ast.Inspect(fd.decl.Body, func(n ast.Node) bool {
+				if se, ok := n.(*ast.SelectorExpr); ok {
+					if _, ok := se.X.(*ast.IndexExpr); ok {
+						pf[se.Sel.Name] = true
+					}
+				}
+				return true
+			})
+			if len(pf) == 1 {
+				for k := range pf {
+					f.projField = k
+				}
+			}
 			// nil tests on *big.Int parameters
 			ast.Inspect(fd.decl.Body, func(n ast.Node) bool {
 				if be, ok := n.(*ast.BinaryExpr); ok && (be.Op == token.EQL || be.Op == token.NEQ) {
@@ -1574,8 +2081,52 @@ func init() {
 				ok = append(ok, sp.name)
 			}()
 		}
+		// C18 — the page-size guard of EVERY paged getter of rpc/api and rpc/api/embedded (a function with a parameter
+		// `pageSize uint32`): its `if pageSize > …RpcMaxPageSize { return … }` statement, translated; a getter without
+		// such a statement is listed in unguardedPagedGetters
+		var pgNames, pgBad []string
+		for _, dir := range []string{"rpc/api", "rpc/api/embedded"} {
+			p := t.pkg(dir)
+			fns := []string{}
+			for name, fd := range p.funcs {
+				if fd.decl.Body == nil {
+					continue
+				}
+				for _, fl := range fd.decl.Type.Params.List {
+					for _, n := range fl.Names {
+						if n.Name == "pageSize" && t.src(fl.Type) == "uint32" {
+							fns = append(fns, name)
+						}
+					}
+				}
+			}
+			sort.Strings(fns)
+			for _, name := range fns {
+				fd := p.funcs[name]
+				sp := &trSpec{name: leanName("pageGuard_" + strings.ReplaceAll(dir, "/", "_") + "_" + name),
+					file: filepath.Join(dir, filepath.Base(t.fset.File(fd.file.Pos()).Name())), fn: name,
+					from: "if pageSize > ", n: 1, outs: []string{}, ins: []trIn{{"pageSize", "uint32", "pageSize"}}}
+				func() {
+					defer func() {
+						if r := recover(); r != nil {
+							e, isTr := r.(trErr)
+							if !isTr {
+								panic(r)
+							}
+							pgBad = append(pgBad, dir+"."+name+": "+e.msg)
+						}
+					}()
+					d, _ := t.translate(sp)
+					defs = append(defs, d)
+					pgNames = append(pgNames, sp.name)
+				}()
+			}
+		}
 		for _, n := range t.order {
 			ff.raw("%s\n", t.inits[n])
+		}
+		for _, d := range t.helpers {
+			ff.raw("%s\n", d)
 		}
 		for _, d := range defs {
 			ff.raw("%s\n", d)
@@ -1587,6 +2138,15 @@ func init() {
 			}
 			return "[" + strings.Join(s, ", ") + "]"
 		}
+		ff.raw("/-- the translated page-size guards of all paged getters, by name -/\ndef pageGuards : List (String × (BitVec 32 → Go.Res Unit)) := [%s]\n",
+			func() string {
+				l := []string{}
+				for _, n := range pgNames {
+					l = append(l, fmt.Sprintf("(%q, %s)", n, n))
+				}
+				return strings.Join(l, ",\n  ")
+			}())
+		ff.raw("def unguardedPagedGetters : List String := %s\n\n", q(pgBad))
 		ff.raw("def translatedNames : List String := %s\n", q(ok))
 		ff.raw("def untranslatableNames : List String := %s\n", q(bad))
 		ff.raw("\nend ZV.Gen.Translated\nnamespace ZV.Gen\n")
